@@ -31,7 +31,14 @@ ASSUMPTIONS = [
     'cacg_eigs_range needs tiny <= lambda_max: a class whose weighted scatter is exactly zero is outside the theorem '
     '(the search reports what the code does there)',
     'NaN/Inf freedom on extreme magnitudes (1e+-150) is searched, not proved (Float vs R gap)',
-    'an explicit exception (ValueError / AssertionError / LinAlgError / RuntimeError) is an allowed answer of a trainer',
+    'an explicit exception (ValueError / AssertionError / LinAlgError / RuntimeError) is an allowed answer of a trainer; '
+    'TypeError / IndexError / AttributeError etc. are not',
+    'quantifier: every class starts with positive (saliency-weighted) mass and the saliency sums to a positive value over '
+    'the tied axes of every weight entry; cases outside are counted as skipped',
+    'Gaussian covariances that the code\'s own Cholesky accepted but that are numerically singular (lambda_min >= -1e-10 '
+    'lambda_max) are judged "up to rounding" like the symmetry (collinear data with a one-ulp pivot)',
+    'a failure of a cACG-based mixture at iteration n whose earlier iterate already contains a zero-scatter class is '
+    'filed under that root cause (known finding cacg-zero-scatter), every other degeneracy keeps its own tag',
 ]
 
 from pb_bss import distribution as dist  # noqa: E402
